@@ -234,7 +234,7 @@ fn main() {
         }
     }
     // random (length, class) points beyond the ladder, seeded
-    let nrand = if thorough { 6000u64 } else { 600 };
+    let nrand = if thorough { 6000u64 } else { 1800 };
     for k in 0..nrand {
         let i = idx;
         idx += 1;
